@@ -15,8 +15,13 @@ subscript is read when); the theorems are re-checked against the expressions the
 import ast
 import copy
 
+import os
+
 from ..extract import HEADER, Src, lean_list, lean_str
 from ..pyexpr import Untranslatable, to_lean
+from ..pystmt_text import Program
+
+PINNED_TEXT_BRANCH = os.path.join(os.path.dirname(os.path.abspath(__file__)), "c08_IsoText.pinned.lean")
 
 PIN_SLICES = [
     [[0, 4], [5, 7], [8, 10]],
@@ -31,6 +36,19 @@ PIN = {
     "sep": [[10, "((c ≠ 'T') ∧ (c ≠ ' '))"], [13, "(c ≠ ':')"], "and"],
     "sec": ["(n ≥ 19)", [16, "(c = ':')"]],
 }
+
+
+PIN_DISPATCH = [
+    "def parse_iso(value)",
+    "input_type = type(value)",
+    "if isinstance(value, bytes): value = value.decode('utf-8') input_type = str",
+    "if input_type == str and value.isdigit(): value = int(value) input_type = int",
+    "if input_type == numpy.datetime64: value = value.astype(datetime.datetime) input_type = type(value) if input_type is int: value /= 1000000000",
+    "if input_type in (int, numpy.int64, float, numpy.float64): return datetime.datetime.fromtimestamp(int(value), tz=datetime.timezone.utc).replace(tzinfo=None)",
+    "if hasattr(value, 'to_pydatetime'): return value.to_pydatetime()",
+    "if input_type == datetime.datetime: return value.replace(microsecond=0)",
+    "if input_type == datetime.date: return datetime.datetime.combine(value, datetime.time.min)",
+]
 
 
 def lean_char(c):
@@ -202,6 +220,12 @@ def generate(o):
             def visit_JoinedStr(self, n):
                 return ast.Constant(value="")
 
+            def visit_Raise(self, n):
+                # the message of a raised exception is not behaviour the property speaks about: `raise E(<anything>)` -> `raise E('')`
+                if isinstance(n.exc, ast.Call) and isinstance(n.exc.func, ast.Name):
+                    return ast.Raise(exc=ast.Call(func=n.exc.func, args=[ast.Constant(value="")], keywords=[]), cause=None)
+                return self.generic_visit(n)
+
         out = []
         for f in ("parse_date", "parse_time", "parse_timestamp"):
             fn_ = copy.deepcopy(tys.func(f))
@@ -209,9 +233,56 @@ def generate(o):
             out.append("; ".join(ast.unparse(ast.fix_missing_locations(Blank().visit(st))).replace("\n", " ").replace("    ", "") for st in body))
         return out
 
+    def text_branch():
+        """The string branch of parse_iso, statement by statement (harness/pystmt.py): the `if input_type == str and
+        <window>:` statement and the `return None` it falls through to, as the Lean program `Gen.IsoText.textBranch`."""
+        tries = [n for n in ast.walk(fn()) if isinstance(n, ast.Try)]
+        if len(tries) != 1:
+            raise KeyError("try/except shape")
+        body = tries[0].body
+        at = [i for i, st in enumerate(body) if isinstance(st, ast.If) and isinstance(st.test, ast.BoolOp) and isinstance(st.test.op, ast.And)
+              and ast.unparse(st.test.values[0]) == "input_type == str" and "len(value)" in ast.unparse(st.test)]
+        if len(at) != 1:
+            raise KeyError("`if input_type == str and <window>:`")
+        st = body[at[0]]
+        rest = st.test.values[1:]
+        test = rest[0] if len(rest) == 1 else ast.BoolOp(op=ast.And(), values=rest)
+        prog = Program("textBranch", [("value", "str")])
+        prog.define([ast.If(test=test, body=st.body, orelse=st.orelse)] + body[at[0] + 1:],
+                    "`parse_iso`'s string branch: `if input_type == str and %s: ...` and the statements after it" % ast.unparse(test))
+        return prog.lean()
+
+    def dispatch():
+        """Decorators of parse_iso and the statements of the `try` body before the string branch (type dispatch, epoch
+        branch, native branches), one normalised line each: what `Iso.body` was written from."""
+        tries = [n for n in ast.walk(fn()) if isinstance(n, ast.Try)]
+        if len(tries) != 1:
+            raise KeyError("try/except shape")
+        outer = [st for st in fn().body if not (isinstance(st, ast.Expr) and isinstance(st.value, ast.Constant))]
+        if len(outer) != 1 or outer[0] is not tries[0] or tries[0].orelse or tries[0].finalbody:
+            raise KeyError("statements around the try")
+        body = tries[0].body
+        at = [i for i, st in enumerate(body) if isinstance(st, ast.If) and "len(value)" in ast.unparse(st.test)]
+        if len(at) != 1:
+            raise KeyError("string branch")
+        lines = ["@" + ast.unparse(d) for d in fn().decorator_list]
+        lines += ["def parse_iso(%s)" % ast.unparse(fn().args)]
+        for st in body[:at[0]]:
+            lines.append(" ".join(ast.unparse(st).split()))
+        return lines
+
+    disp = o.item("iso.dispatch", dispatch, PIN_DISPATCH)
+
+    try:
+        pinned_tb = open(PINNED_TEXT_BRANCH).read()
+    except OSError:
+        pinned_tb = ""
+    tb = o.item("iso.text_branch", text_branch, pinned_tb)
+    o.files["IsoText.lean"] = HEADER + "import OrsoVerif.Model.IsoPrim\nnamespace Gen.IsoText\nopen Iso\n\n" + tb + "end Gen.IsoText\n"
+
     cb = o.item("iso.cast_bodies", cast_bodies, [
         "result = parse_iso(x); if result is None: raise ValueError(''); return result.date()",
-        "if isinstance(x, datetime.time): return x; result = parse_iso(x); if result is None: raise ValueError(''); return result.time()",
+        "if isinstance(x, datetime.time): return x; result = parse_iso(x); if result is None: if isinstance(x, (str, bytes)): try: return datetime.time.fromisoformat(x.decode('') if isinstance(x, bytes) else x) except ValueError: pass raise ValueError(''); return result.time()",
         "result = parse_iso(x); if result is None: raise ValueError(''); return result",
     ])
     c = o.item("iso.caught", caught, ["ValueError", "TypeError", "OverflowError", "OSError"])
@@ -260,7 +331,9 @@ def generate(o):
     t += "def slicesDate : List (Nat × Nat) := %s\n" % lean_list(sl[0], pair)
     t += "def slicesSec : List (Nat × Nat) := %s\n" % lean_list(sl[1], pair)
     t += "def slicesMin : List (Nat × Nat) := %s\n" % lean_list(sl[2], pair)
-    t += "/-- bodies of parse_date / parse_time / parse_timestamp (orso/types.py), string constants blanked -/\n"
+    t += "/-- bodies of parse_date / parse_time / parse_timestamp (orso/types.py), string constants blanked; the TIME cast is not part of\nC08's statement: `parseTimeBody` is recorded for information and is not mentioned by any theorem -/\n"
     t += "def parseDateBody : String := %s\ndef parseTimeBody : String := %s\ndef parseTimestampBody : String := %s\n" % tuple(lean_str(x) for x in cb)
+    t += "/-- decorators, signature and the statements of parse_iso before the string branch (normalised source text) -/\n"
+    t += "def dispatch : List String := %s\n" % lean_list(disp, lean_str)
     t += "end Gen.Iso\n"
     o.files["Iso.lean"] = t
